@@ -73,6 +73,7 @@ type Ctl struct {
 	prio      map[string]int
 	changeAt  map[int]bool
 	lowPrio   int
+	FPOverride string // rigs without a scheduler loop fingerprint their history themselves
 	NoFaults  bool // drain phase: fault sources must not fire
 	ClockOnly bool
 }
@@ -400,7 +401,12 @@ func (c *Ctl) pickPrio(evs []Event, clk Event) Event {
 }
 
 // Fingerprint of the ordered (kind, role) sequence of this run.
-func (c *Ctl) Fingerprint() string { return fmt.Sprintf("%016x", c.fp.Sum64()) }
+func (c *Ctl) Fingerprint() string {
+	if c.FPOverride != "" {
+		return fmt.Sprintf("%016x", hash64(0, c.FPOverride))
+	}
+	return fmt.Sprintf("%016x", c.fp.Sum64())
+}
 
 // Digest of the full normalised event log.
 func (c *Ctl) Digest() string {
